@@ -298,6 +298,37 @@ class ExecutionState:
         with self._operations_lock:
             self.operations.update({op.operation_id: op for op in all_operations})
 
+    def begin_replay_if_history_has_completed_operations(self) -> None:
+        """Enter REPLAY status if the loaded history holds at least one completed operation.
+
+        Call once, after fetch_paginated_operations() has loaded every page of the initial
+        state: the first page alone may carry only the EXECUTION operation, and operations that
+        are merely started are not replayed (no log call precedes a completed operation then).
+        """
+        with self._replay_status_lock:
+            self._replay_status = (
+                ReplayStatus.REPLAY
+                if self._completed_operation_ids()
+                else ReplayStatus.NEW
+            )
+
+    def _completed_operation_ids(self) -> set[str]:
+        with self._operations_lock:
+            operations = list(self.operations.items())
+        return {
+            op_id
+            for op_id, op in operations
+            if op.operation_type != OperationType.EXECUTION
+            and op.status
+            in {
+                OperationStatus.SUCCEEDED,
+                OperationStatus.FAILED,
+                OperationStatus.CANCELLED,
+                OperationStatus.STOPPED,
+                OperationStatus.TIMED_OUT,
+            }
+        }
+
     def track_replay(self, operation_id: str) -> None:
         """Check if operation exists with completed status; if not, transition to NEW status.
 
